@@ -263,6 +263,98 @@ def r8c(fb, rep):
     rep.extra["deser_panic_sites"] = len(sites)
 
 
+WITH_RE = re.compile(r"\b(serialize_state_with|deserialize_state_with|state_with|serialize_with|deserialize_with|with)\s*=\s*\"([^\"]+)\"")
+FLAG_RE = re.compile(r"\b(serialize_state|deserialize_state|state)\b(?!\s*=)(?!_)")
+
+
+def _codec(attrs):
+    """(ser, de): the codec used for a field in each direction: 'derived', 'state', or the module of a custom function pair"""
+    ser = de = "derived"
+    for at in attrs:
+        if "serde" not in at:
+            continue
+        body = at[at.index("(") + 1:at.rindex(")")] if "(" in at and ")" in at else at
+        for k, v in WITH_RE.findall(body):
+            v = v.lstrip(":")
+            v = v[len("crate::"):] if v.startswith("crate::") else v
+            v = v[len("vm::"):] if v.startswith("vm::") else v
+            if k in ("state_with", "with"):
+                ser = de = "mod:" + v
+            elif k.startswith("serialize"):
+                ser = "fn:" + v
+            else:
+                de = "fn:" + v
+        rest = WITH_RE.sub("", body)
+        for k in FLAG_RE.findall(rest):
+            if k == "state":
+                ser = ser if ser != "derived" else "state"
+                de = de if de != "derived" else "state"
+            elif k == "serialize_state":
+                ser = "state"
+            else:
+                de = "state"
+    return ser, de
+
+
+def r8d(fb, rep):
+    """a field travels through the *same* codec in both directions"""
+    R = "R8d"
+    rep.rule(R, "every field of the precompiled-module type graph is written and read by the same codec (no one-sided custom function)")
+    graph, leaves, impls = _type_graph(fb, ROOT)
+    reviewed = {(e["adt"], e["field"]): e for e in table("serde_asymmetric_reviewed.json")["reviewed"]}
+    n = n_custom = 0
+    for p, a in sorted(graph.items()):
+        for v in a["variants"]:
+            for f in v["fields"]:
+                ser, de = _codec(f.get("attrs", []))
+                n += 1
+                if ser.startswith(("mod:", "fn:")) or de.startswith(("mod:", "fn:")):
+                    n_custom += 1
+                sym = ser == de
+                if not sym and ser.startswith("fn:") and de.startswith("fn:"):
+                    # X::serialize / X::deserialize of one module is a pair
+                    sym = ser[3:].rsplit("::", 1)[0] == de[3:].rsplit("::", 1)[0] and "::" in ser and "::" in de
+                key = (p, f["name"])
+                if sym:
+                    rep.ok(R, "%s.%s: %s both ways" % (p.rsplit("::", 1)[1], f["name"], ser) if ser != "state" and ser != "derived" else None)
+                elif key in reviewed and reviewed[key].get("ser") == ser and reviewed[key].get("de") == de:
+                    rep.exception(R, "%s.%s" % key, reviewed[key]["reason"])
+                else:
+                    rep.violation(R, "asymmetric-codec|%s|%s" % key, "%s.%s is written with %s but read with %s: the two sides are maintained separately and need not "
+                                  "accept each other's output (borrowed vs owned strings, sharing tables, element order)" % (p, f["name"], ser, de),
+                                  "%s:%s" % (a["file"], a["line"]))
+    rep.floor(R, "fields examined", n, 40)
+    rep.floor(R, "fields with a custom codec", n_custom, 10)
+
+
+def r8e(fb, rep):
+    """no zero-copy (borrowed) string/bytes deserialisation on the load path: a self-describing text format can only lend
+    strings that need no unescaping, so such a reader accepts some modules and rejects others with the same meaning"""
+    R = "R8e"
+    rep.rule(R, "the load path never deserialises a borrowed &str / &[u8] (fails on any string that needs unescaping)")
+    n = 0
+    bad = []
+    for b in fb.bodies.values():
+        if b.crate.name not in ("gluon_vm", "gluon_base", "gluon"):
+            continue
+        for c in b.calls():
+            fn = c.fn or ""
+            if not (fn.endswith("Deserialize::deserialize") or fn.endswith("DeserializeState::deserialize_state") or fn.endswith("DeserializeSeed::deserialize")
+                    or fn.endswith("SeqAccess::next_element") or fn.endswith("MapAccess::next_value") or fn.endswith("MapAccess::next_key")
+                    or fn.endswith("SeqAccess::next_element_seed")):
+                continue
+            n += 1
+            for g in c.desc.get("ga", []):
+                ts = b.tstr(g)
+                if re.search(r"&('\w+ )?(str|\[u8\])", ts):
+                    bad.append((b, c, ts))
+    rep.floor(R, "deserialise calls examined", n, 30)
+    for b, c, ts in bad:
+        rep.violation(R, "borrowed-deserialise|%s" % (b.get("root") or b.id), "%s deserialises a borrowed value (%s): input strings that need unescaping are rejected" % (b.id, ts[:80]), c.where())
+    if not bad:
+        rep.ok(R, "%d deserialise calls, none at a borrowed string/bytes type" % n)
+
+
 def run(fb, rep, tier, cfg):
     import harness
     rep.explanation = (
@@ -272,9 +364,13 @@ def run(fb, rep, tier, cfg):
         "graph type with only one direction implemented; R8b reads the Cargo feature tables so that no feature enables the serde "
         "derive without the feature that supplies its seed attributes; R8c: the Precompiled executable propagates the "
         "deserialiser's error and the hand-written deserialisation code has no unreviewed unwrap/expect/panic/index site. "
-        "Behavioural equality of a loaded module is not decided.")
+        "R8d: every field of that graph goes through the same codec in both directions (derived, `state`, one `state_with` module, or a "
+        "serialize/deserialize pair of one module; one reviewed exception); R8e: no deserialise call on the load path is instantiated at a "
+        "borrowed &str/&[u8]. Behavioural equality of a loaded module is not decided.")
     rep.assumptions += ["serde / serde_state derive output is trusted to (de)serialise every non-skipped field",
                         "facts come from the `serialization` feature configuration"]
     r8a(fb, rep)
     r8b(fb, rep, harness.REPO)
     r8c(fb, rep)
+    r8d(fb, rep)
+    r8e(fb, rep)
